@@ -15,15 +15,17 @@ Put(f, c, v) == [x \in (DOMAIN f) \cup {c} |-> IF x = c THEN v ELSE f[x]]
 Msg(e) == <<e.len, e.hash, e.str>>
 
 Preds(e) ==
-  LET en == e.ev = "end" /\ e.reliable /\ e.ordered
+  \* settled: everything arrived, or nothing arrived any more for 20 s (a run that was still making progress
+  \* when the driver gave up says nothing about completeness)
+  LET en == e.ev = "end" /\ e.reliable /\ e.ordered /\ e.settled
       s == Get(sent, e.ch)
       g == Get(got, e.ch)
   IN {
    P("C19", "ParamsMirrored", e.ev = "remote" /\ e.ch \in DOMAIN made,
         made[e.ch] = <<e.ordered, e.mr, e.ml, e.protocol>>),
-   P("C19", "AppearsOnRemote", e.ev = "end", e.str),
+   P("C19", "AppearsOnRemote", e.ev = "end" /\ e.settled, e.str),
    P("C19", "ExactlyOnce", en, Len(g) = Len(s)),
-   P("C19", "FifoIntact", en, \A i \in 1..Len(g) : i <= Len(s) /\ g[i] = s[i])
+   P("C19", "FifoIntact", e.ev = "end" /\ e.reliable /\ e.ordered, \A i \in 1..Len(g) : i <= Len(s) /\ g[i] = s[i])
   }
 
 Init == pos = 1 /\ viol = {} /\ cnt = EmptyCount /\ made = [x \in {} |-> <<>>] /\ sent = [x \in {} |-> <<>>] /\ got = [x \in {} |-> <<>>]
